@@ -240,7 +240,7 @@ func run(t *testing.T, sc Scenario) *core.Result {
 	var summary map[string]any
 	res := sys.Run(t, opts, func(w *sys.World) {
 		w.ProbeInit("reached_play", "reached_record", "reached_preRecord", "reached_prePlay", "illegal_request_rejected", "conn_closed_after_error",
-			"session_ended_by_teardown", "session_ended_last_conn", "session_survives_conn_udp", "pipelined_batch", "two_conns",
+			"session_ended_by_teardown", "conn_kept_after_teardown", "session_ended_last_conn", "session_survives_conn_udp", "pipelined_batch", "two_conns",
 			"wrong_session_id", "not_implemented", "either_outcome", "unsupported_transport")
 		srvNode := w.Net.Node("srv", "10.0.0.1")
 		h := sys.NewHandler(w)
@@ -443,6 +443,7 @@ func run(t *testing.T, sc Scenario) *core.Result {
 				}
 				// read the responses: one per request, in order, echoing CSeq
 				closedMid := false
+				teardownOKLast := false
 				for idx, s := range sents {
 					res, err := c.ReadResponse(20 * time.Second)
 					if err != nil {
@@ -468,6 +469,7 @@ func run(t *testing.T, sc Scenario) *core.Result {
 					}
 					ok := isOK(res)
 					w.Log.Add("cli", "response", "c%d %d %s sess=%v", k, res.StatusCode, res.StatusMessage, res.Header["Session"])
+					teardownOKLast = ok && s.exp == expOK && s.q.Method == "TEARDOWN" && idx == len(sents)-1
 					switch s.exp {
 					case expOK:
 						if !ok {
@@ -533,6 +535,15 @@ func run(t *testing.T, sc Scenario) *core.Result {
 				}
 				// did the server close the connection?
 				time.Sleep(settle)
+				if teardownOKLast && !closedMid && serverClosed(k) {
+					// the connection that carried a successful TEARDOWN stays usable: the next request on it
+					// is owed a response like any other ("exactly one response per request")
+					w.Fail("c02/conn closed-after-teardown", "the server closed connection c%d right after answering 200 to TEARDOWN on it; sequence: %s", k, describe(sc.Reqs[:i]))
+					return
+				}
+				if teardownOKLast {
+					w.Probe("conn_kept_after_teardown")
+				}
 				if serverClosed(k) || closedMid {
 					w.Probe("conn_closed_after_error")
 					if cc := conns[k]; cc != nil {
